@@ -29,6 +29,7 @@ type task struct {
 	prio   int
 	fn     func()
 	daemon bool // started by the code under test (a `go` statement), not by the world
+	condWoken bool
 
 	panicVal   string
 	panicStack string
@@ -98,6 +99,7 @@ type Sim struct {
 	seq     uint64
 	pending *Preempt
 	once    []*onceState
+	conds   []*condState
 	hookAt  int64
 	hookFn  func()
 	res     *Result
@@ -342,6 +344,82 @@ func DisarmHook() bool {
 	}
 	s.hookFn = nil
 	return true
+}
+
+type condState struct {
+	key     *sync.Cond
+	waiting []*task
+}
+
+//go:norace
+func (s *Sim) condOf(c *sync.Cond) *condState {
+	for _, st := range s.conds {
+		if st.key == c {
+			return st
+		}
+	}
+	st := &condState{key: c}
+	s.conds = append(s.conds, st)
+	return st
+}
+
+// CondWait / CondSignal / CondBroadcast replace the methods of sync.Cond in the instrumented
+// copy. The real Wait re-acquires c.L with a real Lock when it wakes; if a parked task holds
+// that mutex the waiter would block where the simulator cannot see it. Here a waiting task
+// releases c.L, waits like on a simulated lock until a Signal/Broadcast selected it, and
+// re-acquires c.L through TryLock. Signal wakes the longest-waiting task, Broadcast all.
+//
+//go:norace
+func CondWait(c *sync.Cond) {
+	s, t := lookup()
+	if s == nil || t == nil {
+		c.Wait()
+		return
+	}
+	s.arrive(t)
+	st := s.condOf(c)
+	st.waiting = append(st.waiting, t)
+	t.condWoken = false
+	c.L.Unlock()
+	epochCtr++
+	for !t.condWoken {
+		t.epoch = epochCtr
+		s.handoff(t, stBlocked)
+	}
+	if tl, ok := c.L.(interface{ TryLock() bool }); ok {
+		lockLoop(tl.TryLock, c.L.Lock)
+	} else {
+		c.L.Lock()
+	}
+}
+
+//go:norace
+func CondSignal(c *sync.Cond) {
+	if s, t := lookup(); s != nil && t != nil {
+		s.arrive(t)
+		st := s.condOf(c)
+		if len(st.waiting) > 0 {
+			w := st.waiting[0]
+			st.waiting = st.waiting[1:]
+			w.condWoken = true
+			epochCtr++
+		}
+	}
+	c.Signal()
+}
+
+//go:norace
+func CondBroadcast(c *sync.Cond) {
+	if s, t := lookup(); s != nil && t != nil {
+		s.arrive(t)
+		st := s.condOf(c)
+		for _, w := range st.waiting {
+			w.condWoken = true
+		}
+		st.waiting = nil
+		epochCtr++
+	}
+	c.Broadcast()
 }
 
 // Stamp returns the next global event sequence number (for history stamps).
